@@ -7,10 +7,14 @@ A geom `<G>` is `<kind> s0 s1 s2 p0 p1 p2 m0 .. m8` with kind ∈ sphere capsule
   supp <G> d0 d1 d2                         -> `r0 r1 r2 <vertindex>`       (obj->support(res, obj, dir))
   msupp nv v0x v0y v0z ... p0 p1 p2 m0..m8 d0 d1 d2 <cached>
                                             -> `r0 r1 r2 <vertindex>`       (mjc_meshSupport, exhaustive)
-  sep <G_A> <G_B> x1[3] x2[3] dist k tol    -> `<ok|fail> <memA> <memB> <len> <slack> <bound>`   (sepOK / sepCert)
+  sep <G_A> <G_B> x1[3] x2[3] w[3] dist k tol
+                                            -> `<ok|fail> <memA> <memB> <len> <slack> <bound>`   (sepOK / sepCert)
+  seplo <G_A> <G_B> w[3] lo                 -> `<ok|fail> <-overlapAlong A B w>`                 (sepLowerOK)
+  pend <G_A> <G_B> w[3] dist tol            -> `<ok|fail> <overlapAlong A B w>`                  (penDepthOK)
   pen <G_A> <G_B> x1[3] x2[3] w[3] dist k tol
                                             -> `<ok|fail> <memA> <memB> <len> <slack> <bound>`   (penOK / penCert)
   over <G_A> <G_B> w[3]                     -> `<overlapAlong A B w>`
+  ball <G_A> <G_B> c[3] rho                 -> `<ok|fail> <ballIn A> <ballIn B>`                 (innerBallOK)
 Malformed lines are answered with `bad-op`.
 -/
 open MjProof MjProof.Driver MjProof.Support
@@ -121,11 +125,36 @@ def step (line : String) : String :=
     | some (a, ws) =>
       match geom? ws with
       | some (b, ws) =>
-        match floats? 9 ws with
-        | some ([a0, a1, a2, b0, b1, b2, dist, k, tol], []) =>
+        match floats? 12 ws with
+        | some ([a0, a1, a2, b0, b1, b2, w0, w1, w2, dist, k, tol], []) =>
           let x1 : V3 Float := ⟨a0, a1, a2⟩
           let x2 : V3 Float := ⟨b0, b1, b2⟩
-          showCert (sepOK a b x1 x2 dist k tol) (sepCert a b x1 x2 k)
+          let w : V3 Float := ⟨w0, w1, w2⟩
+          showCert (sepOK a b x1 x2 w dist k tol) (sepCert a b x1 x2 w k)
+        | _ => "bad-op"
+      | none => "bad-op"
+    | none => "bad-op"
+  | "seplo" :: ws =>
+    match geom? ws with
+    | some (a, ws) =>
+      match geom? ws with
+      | some (b, ws) =>
+        match floats? 4 ws with
+        | some ([w0, w1, w2, lo], []) =>
+          let w : V3 Float := ⟨w0, w1, w2⟩
+          (if sepLowerOK a b w lo then "ok " else "fail ") ++ floatBits (-(overlapAlong a b w))
+        | _ => "bad-op"
+      | none => "bad-op"
+    | none => "bad-op"
+  | "pend" :: ws =>
+    match geom? ws with
+    | some (a, ws) =>
+      match geom? ws with
+      | some (b, ws) =>
+        match floats? 5 ws with
+        | some ([w0, w1, w2, dist, tol], []) =>
+          let w : V3 Float := ⟨w0, w1, w2⟩
+          (if penDepthOK a b w dist tol then "ok " else "fail ") ++ floatBits (overlapAlong a b w)
         | _ => "bad-op"
       | none => "bad-op"
     | none => "bad-op"
@@ -150,6 +179,18 @@ def step (line : String) : String :=
       | some (b, ws) =>
         match v3? ws with
         | some (w, []) => floatBits (overlapAlong a b w)
+        | _ => "bad-op"
+      | none => "bad-op"
+    | none => "bad-op"
+  | "ball" :: ws =>
+    match geom? ws with
+    | some (a, ws) =>
+      match geom? ws with
+      | some (b, ws) =>
+        match floats? 4 ws with
+        | some ([c0, c1, c2, rho], []) =>
+          let c : V3 Float := ⟨c0, c1, c2⟩
+          (if innerBallOK a b c rho then "ok " else "fail ") ++ b01 (ballIn a c rho) ++ " " ++ b01 (ballIn b c rho)
         | _ => "bad-op"
       | none => "bad-op"
     | none => "bad-op"
